@@ -442,20 +442,20 @@ V('c17-session-update-unfiltered', 'C17', 'R17.1', FLAGSPY,
   'new_flags = op.apply(orig_set, self & flag_set)',
   'new_flags = op.apply(orig_set, frozenset(flag_set))')
 V('c17-recent-true', 'C17', 'R17.2', SESS,
-  '''            msg = await mbx.append(append_msg, recent=not dest_selected)''',
-  '''            msg = await mbx.append(append_msg, recent=True)''')
+  '''                msg = await mbx.append(append_msg, recent=not dest_selected)''',
+  '''                msg = await mbx.append(append_msg, recent=True)''')
 V('c17-recent-not-negated', 'C17', 'R17.2', SESS,
   '''            dest_uid = await mbx.copy(source_uid, dest,
                                       recent=not dest_selected)''',
   '''            dest_uid = await mbx.copy(source_uid, dest,
                                       recent=bool(dest_selected))''')
 V('c17-add-recent-unguarded', 'C17', 'R17.2', SESS,
-  '''            msg = await mbx.append(append_msg, recent=not dest_selected)
-            if dest_selected:
-                dest_selected.session_flags.add_recent(msg.uid)''',
-  '''            msg = await mbx.append(append_msg, recent=not dest_selected)
-            if selected:
-                selected.session_flags.add_recent(msg.uid)''')
+  '''                msg = await mbx.append(append_msg, recent=not dest_selected)
+                if dest_selected:
+                    dest_selected.session_flags.add_recent(msg.uid)''',
+  '''                msg = await mbx.append(append_msg, recent=not dest_selected)
+                if selected:
+                    selected.session_flags.add_recent(msg.uid)''')
 V('c17-claim-no-clear', 'C17', 'R17.4', DICTMBX,
   '''            if msg.recent:
                 msg.recent = False
@@ -498,12 +498,14 @@ V('c17-copy-carries-recent', 'C17', 'R17.8', DICTMBX,
 # twins
 V('c17-twin-local-negation', 'C17', 'R17.2', SESS,
   '''        uids: list[int] = []
-        for append_msg in messages:
-            msg = await mbx.append(append_msg, recent=not dest_selected)''',
+        try:
+            for append_msg in messages:
+                msg = await mbx.append(append_msg, recent=not dest_selected)''',
   '''        uids: list[int] = []
         store_recent = not dest_selected
-        for append_msg in messages:
-            msg = await mbx.append(append_msg, recent=store_recent)''',
+        try:
+            for append_msg in messages:
+                msg = await mbx.append(append_msg, recent=store_recent)''',
   expect='silent')
 V('c17-twin-claim-list', 'C17', 'R17.7', MAILDIRMBX,
   'keys = frozenset(self._maildir.claim_new())',
@@ -625,10 +627,10 @@ V('c04-copyuid-order', 'C04', 'R4.4', CODEPY,
   '''            % (validity, bytes(source_uid_set), bytes(dest_uid_set))''',
   '''            % (validity, bytes(dest_uid_set), bytes(source_uid_set))''')
 V('c04-appenduid-wrong-uids', 'C04', 'R4.4', SESS,
-  '''            uids.append(msg.uid)
-        return (AppendUid(mbx.uid_validity, uids),''',
-  '''            uids.append(len(uids) + 1)
-        return (AppendUid(mbx.uid_validity, uids),''')
+  '''                uids.append(msg.uid)
+        except BaseException:''',
+  '''                uids.append(len(uids) + 1)
+        except BaseException:''')
 # twins
 V('c04-twin-augassign', 'C04', 'R4.1', DICTMBX,
   '''            self._max_uid = new_uid = self._max_uid + 1
